@@ -23,7 +23,7 @@ type invCase struct {
 
 var InvalidKinds = []string{"unknown-field", "unknown-type-condition", "unknown-argument", "unknown-directive", "wrong-literal-type",
 	"undeclared-variable", "unused-variable", "mistyped-variable", "required-argument-removed", "scalar-with-selection", "object-without-selection",
-	"fragment-cycle", "unknown-fragment", "duplicate-operation-name", "ambiguous-operation", "unknown-operation-name", "conflicting-response-keys",
+	"fragment-cycle", "unknown-fragment", "duplicate-operation-name", "ambiguous-operation", "unknown-operation-name", "operation-name-for-anonymous-operation", "conflicting-response-keys",
 	"wrong-root-type", "syntax-error"}
 
 func invalidate(s *ast.Schema, q string) []invCase {
@@ -162,6 +162,13 @@ func invalidate(s *ast.Schema, q string) []invCase {
 					op.Name = "A1"
 					opName = "Other"
 				}
+			case "operation-name-for-anonymous-operation":
+				// the document's only operation has no name, the request names one
+				if !whole {
+					ok = false
+				} else {
+					opName = "Other"
+				}
 			case "conflicting-response-keys":
 				// alias a sibling of a different field to the same key
 				ok = false
@@ -277,10 +284,10 @@ func init() {
 	Props["C10"] = &Prop{
 		ID:    "C10",
 		Level: "exploration",
-		Rule: "part 1 (inv): for every valid operation with <=K fields, every single invalidating mutation (19 kinds: unknown field/type condition/argument/directive, wrong literal, undeclared/unused/mistyped variable, " +
-			"required argument removed, scalar with / object without selection, fragment cycle, unknown fragment, duplicate/ambiguous/unknown operation name, conflicting response keys, wrong root type, syntax error) at every position; " +
+		Rule: "part 1 (inv): for every valid operation with <=K fields, every single invalidating mutation (20 kinds: unknown field/type condition/argument/directive, wrong literal, undeclared/unused/mistyped variable, " +
+			"required argument removed, scalar with / object without selection, fragment cycle, unknown fragment, duplicate/ambiguous/unknown operation name, a name for an anonymous operation, conflicting response keys, wrong root type, syntax error) at every position; " +
 			"mutants that stay valid are skipped; operation-name mutations are sent after a valid request with the same document text; oracle: no downstream request, errors non-empty, data null, status 200; each invalid operation is also sent as the second and as the first entry of a client batch next to a valid one (answers stay at their positions, the valid one keeps its data, downstream requests only for the valid one). " +
-			"part 2 (err): for every operation with <=K fields, a GraphQL error payload (1 or 2 errors, also two with the same message; unicode message, nested extensions, path, locations) injected at every downstream call and every position of its batch; " +
+			"part 2 (err): for every operation with <=K fields, a GraphQL error payload (1 or 2 errors, also two with the same message; unicode message, nested extensions, path, locations; extensions without a `code`; no extensions and no path at all) injected at every downstream call and every position of its batch; " +
 			"oracle: every downstream error is in the client's errors with equal message, extensions and path; non-trivial = invalid-by-validator (part 1) / fault actually hit a sub-request (part 2)",
 		Assumptions: []string{"gqlparser's validator on the merged schema defines 'invalid'", "the in-memory services log every request they receive"},
 		Jobs:        c10Jobs,
@@ -405,7 +412,7 @@ func init() {
 				calls := append([]HTTPCall{}, f.Fakes.Calls...)
 				for ci, hc := range calls {
 					for pos := 0; pos < hc.Size; pos++ {
-						for _, kind := range []string{"errors1", "errors2", "errors2same"} {
+						for _, kind := range []string{"errors1", "errors2", "errors2same", "errors-nocode", "errors-noext"} {
 							idx++
 							if idx-1 < from {
 								continue
@@ -438,13 +445,16 @@ func init() {
 							} else if hit {
 								got, _ := resp["errors"].([]interface{})
 								n := 1
-								if kind != "errors1" {
+								if kind == "errors2" || kind == "errors2same" {
 									n = 2
 								}
 								for i := 1; i <= n; i++ {
 									want := errPayload(i)
 									if kind == "errors2same" {
 										want["message"] = errPayload(1)["message"]
+									}
+									if kind == "errors-nocode" || kind == "errors-noext" {
+										want = ErrVariant(kind)
 									}
 									found := false
 									for _, g := range got {
